@@ -101,8 +101,11 @@ Catalog(name) == SelectSeq(AllTxs, LAMBDA t : t.id \in CatIds(name))
 (*   rev    backward changes applied in reverse order (FALSE at HEAD)       *)
 (*   mir    backward HTLC / second-level changes mirror the forward         *)
 (*          adds/removes (FALSE at HEAD: they are swapped)                  *)
+(*   stale  a monitor that is not ready (never saw a block start) keeps the *)
+(*          partial decode state of the block stream it joined (FALSE at    *)
+(*          HEAD: on_*_streamed_block_end takes it before the early exit)   *)
 (***************************************************************************)
-MkK(cat, variant, rev, mir) ==
+MkKS(cat, variant, rev, mir, stale) ==
   LET c == Catalog(cat) IN
   [ tx    |-> [id \in {c[i].id : i \in DOMAIN c} |-> c[CHOOSE i \in DOMAIN c : c[i].id = id]],
     ids   |-> [i \in DOMAIN c |-> c[i].id],
@@ -111,7 +114,9 @@ MkK(cat, variant, rev, mir) ==
     fvout |-> 0,
     utxo0 |-> {"IN:1", "IN:2", "IN:9"},
     rev   |-> rev,
-    mir   |-> mir ]
+    mir   |-> mir,
+    stale |-> stale ]
+MkK(cat, variant, rev, mir) == MkKS(cat, variant, rev, mir, FALSE)
 
 Outs(t) == {Op(t.id, v) : v \in 0..(t.nout - 1)}
 
@@ -149,7 +154,9 @@ Blocks(K, maxTx) == {b \in SeqsUpTo(DOMAIN K.tx, maxTx) : Coherent(K, b)}
 InitView(K) ==
   [ h |-> 0, fh |-> -1, fo |-> None, dsh |-> -1, mch |-> -1, uch |-> -1,
     ct |-> None, cour |-> -1, cos |-> FALSE, cho |-> <<>>, chs |-> <<>>, csl |-> <<>>,
-    csh |-> -1, oosh |-> -1, w |-> K.fin, sn |-> {} ]
+    csh |-> -1, oosh |-> -1, w |-> K.fin, sn |-> {},
+    sb |-> FALSE,   \* State.saw_block: a block start or a compact block was seen
+    pd |-> <<>> ]   \* ChainMonitor.decode_state between requests: <<>> or <<snapshot of the state it was created from>>
 
 NoClose(s) == [s EXCEPT !.ct = None, !.cour = -1, !.cos = FALSE, !.cho = <<>>, !.chs = <<>>, !.csl = <<>>]
 
@@ -287,8 +294,15 @@ Delivered(K, s, b, dir, m) ==
 (* Connect = ChainTracker::add_block -> on_add_block[_streamed_end] ->      *)
 (*           State::on_add_block_end ; notify_listeners_add bookkeeping     *)
 (***************************************************************************)
-Connect(K, s, txs) ==
-  LET sc   == Scan(K, s, txs)
+\* The block is scanned on a copy of the state: for a compact block a copy taken now
+\* (push_transactions), for a streamed block the copy on_push made at the first push event of the
+\* stream - or a LEFT-OVER copy if one was never consumed (get_or_insert_with re-uses it).
+\* Either way the monitor has then seen a block; a streamed block end consumes the copy.
+ScanBase(s, m) == IF m = "streamed" /\ s.pd # <<>> THEN [s.pd[1] EXCEPT !.w = s.w, !.sn = s.sn] ELSE s
+After(s, m) == [s EXCEPT !.sb = TRUE, !.pd = IF m = "streamed" THEN <<>> ELSE @]
+
+Connect(K, s, txs, m) ==
+  LET sc   == Scan(K, ScanBase(s, m), txs)
       wasC == ClosingSwept(s)
       wasO == OurSwept(s)
       ap   == FoldLeft(LAMBDA acc, c : IF acc.p # "" THEN acc
@@ -298,7 +312,7 @@ Connect(K, s, txs) ==
       s3   == [s2 EXCEPT !.csh  = IF ~wasC /\ ClosingSwept(s2) THEN s2.h ELSE @,
                          !.oosh = IF ~wasO /\ OurSwept(s2) THEN s2.h ELSE @]
   IN IF ap.p # "" THEN [resp |-> "panic", s |-> s, why |-> ap.p]
-     ELSE [resp |-> "ok", s |-> [s3 EXCEPT !.w = (@ \cup ap.a) \ ap.r, !.sn = @ \cup ap.r], why |-> ""]
+     ELSE [resp |-> "ok", s |-> After([s3 EXCEPT !.w = (@ \cup ap.a) \ ap.r, !.sn = @ \cup ap.r], m), why |-> ""]
 
 (***************************************************************************)
 (* Disconnect = ChainTracker::remove_block -> on_remove_block[...] ->       *)
@@ -306,8 +320,8 @@ Connect(K, s, txs) ==
 (* The scan runs on the post-block state; the change list is applied with   *)
 (* the backward rules in forward order unless K.rev.                        *)
 (***************************************************************************)
-Disconnect(K, s, txs) ==
-  LET sc   == Scan(K, s, txs)
+Disconnect(K, s, txs, m) ==
+  LET sc   == Scan(K, ScanBase(s, m), txs)
       wasC == ClosingSwept(s)
       wasO == OurSwept(s)
       chs  == IF K.rev THEN Reverse(sc.ch) ELSE sc.ch
@@ -319,7 +333,7 @@ Disconnect(K, s, txs) ==
                          !.oosh = IF wasO /\ ~OurSwept(s2) THEN -1 ELSE @,
                          !.h = @ - 1]
   IN IF ap.p # "" THEN [resp |-> "panic", s |-> s, why |-> ap.p]
-     ELSE [resp |-> "ok", s |-> [s3 EXCEPT !.sn = @ \ ap.r, !.w = (@ \cup ap.r) \ ap.a], why |-> ""]
+     ELSE [resp |-> "ok", s |-> After([s3 EXCEPT !.sn = @ \ ap.r, !.w = (@ \cup ap.r) \ ap.a], m), why |-> ""]
 
 (***************************************************************************)
 (* Requests:  [op |-> "C", b |-> block, m |-> mode]  /  [op |-> "D", m]     *)
@@ -331,29 +345,54 @@ Enabled(K, st, req) == IF req.op = "C" THEN ValidOn(K, st.chain, req.b) ELSE Len
 
 Step(K, st, req) ==
   IF req.op = "C"
-  THEN LET o == Connect(K, st.s, Delivered(K, st.s, req.b, "C", req.m)) IN
+  THEN LET o == Connect(K, st.s, Delivered(K, st.s, req.b, "C", req.m), req.m) IN
        [resp |-> o.resp, why |-> o.why,
         st |-> IF o.resp = "ok" THEN [chain |-> Append(st.chain, req.b), s |-> o.s] ELSE st]
   ELSE LET b == st.chain[Len(st.chain)]
-           o == Disconnect(K, st.s, Delivered(K, st.s, b, "D", req.m)) IN
+           o == Disconnect(K, st.s, Delivered(K, st.s, b, "D", req.m), req.m) IN
        [resp |-> o.resp, why |-> o.why,
         st |-> IF o.resp = "ok" THEN [chain |-> SubSeq(st.chain, 1, Len(st.chain) - 1), s |-> o.s] ELSE st]
 
 InitSt(K) == [chain |-> <<>>, s |-> InitView(K)]
 
-\* the view obtained by connecting only the blocks of the chain, in order
-Replay(K, chain, m) ==
-  FoldLeft(LAMBDA acc, b : IF acc.ok
-                           THEN LET o == Connect(K, acc.s, Delivered(K, acc.s, b, "C", m)) IN
+(***************************************************************************)
+(* A channel set up IN THE MIDDLE of a streamed block b1 (its listener is   *)
+(* added to the tracker between two BlockChunk messages).  on_push creates  *)
+(* a decode state for the new monitor from its initial state, the remaining *)
+(* push events are ignored (no block start seen: is_not_ready_for_push),    *)
+(* and on_add_streamed_block_end takes the decode state and bails out       *)
+(* because saw_block is false: the monitor keeps its initial view - in      *)
+(* particular its height, which from then on is one less than the           *)
+(* tracker's - and (at HEAD) no decode state is left behind.                *)
+(***************************************************************************)
+InitStLate(K, b1) ==
+  [chain |-> <<b1>>,
+   s |-> [InitView(K) EXCEPT !.pd = IF K.stale THEN <<InitView(K)>> ELSE <<>>]]
+
+\* the view obtained by connecting only the blocks of the chain, in order (ms: delivery per block)
+ReplayM(K, chain, ms) ==
+  FoldLeft(LAMBDA acc, i : IF acc.ok
+                           THEN LET o == Connect(K, acc.s, Delivered(K, acc.s, chain[i], "C", ms[i]), ms[i]) IN
                                 [ok |-> o.resp = "ok", s |-> o.s]
                            ELSE acc,
-           [ok |-> TRUE, s |-> InitView(K)], chain)
+           [ok |-> TRUE, s |-> InitView(K)], [i \in DOMAIN chain |-> i])
+Replay(K, chain, m) == ReplayM(K, chain, [i \in DOMAIN chain |-> m])
+
+\* What C14 compares.  Exact: everything but the readiness flag and the (unobservable) decode state.
+\* Late: a channel set up during block b1 is compared with one set up before b1; its height lags by
+\* one, so heights are compared as depths below the monitor's own height.
+Dep(s, x) == IF x = -1 THEN -1 ELSE s.h - x
+PV(s) == [s EXCEPT !.sb = FALSE, !.pd = <<>>]
+NV(s) == [PV(s) EXCEPT !.h = 0, !.fh = Dep(s, @), !.dsh = Dep(s, @), !.mch = Dep(s, @), !.uch = Dep(s, @),
+                       !.csh = Dep(s, @), !.oosh = Dep(s, @)]
+Cmp(late, s) == IF late THEN NV(s) ELSE PV(s)
 
 \* C14 as a state predicate of the model
-Inv_C14(K, st, aborted) ==
+Inv_C14L(K, st, aborted, late) ==
   /\ ~aborted
-  /\ LET r == Replay(K, st.chain, "streamed") IN r.ok /\ r.s = st.s
-  /\ LET r == Replay(K, st.chain, "compact") IN r.ok /\ r.s = st.s
+  /\ LET r == Replay(K, st.chain, "streamed") IN r.ok /\ Cmp(late, r.s) = Cmp(late, st.s)
+  /\ LET r == Replay(K, st.chain, "compact") IN r.ok /\ Cmp(late, r.s) = Cmp(late, st.s)
+Inv_C14(K, st, aborted) == Inv_C14L(K, st, aborted, FALSE)
 
 \* names of the view fields that differ (for reports)
 Fields == <<"h", "fh", "fo", "dsh", "mch", "uch", "ct", "cour", "cos", "cho", "chs", "csl", "csh", "oosh", "w", "sn">>
